@@ -37,6 +37,33 @@ enum resize_factor { X1 = 0, X2, X4, X8 };
 
 template<typename A> using string = std::basic_string<char, std::char_traits<char>, typename std::allocator_traits<A>::template rebind_alloc<char>>;
 
+#ifdef DATASKETCHES_VERIF
+// verification hook (add-only): every source of randomness is forwarded to harness-supplied
+// extern "C" functions so that coin flips and random draws become inputs of a check.
+// With DATASKETCHES_VERIF undefined the original engines below are used unchanged.
+} // namespace datasketches
+extern "C" uint32_t datasketches_verif_random_bit();
+extern "C" uint64_t datasketches_verif_rand_u64();
+extern "C" double datasketches_verif_next_double();
+namespace datasketches {
+namespace random_utils {
+  struct verif_rand_engine {
+    typedef uint64_t result_type;
+    static constexpr result_type min() { return 0; }
+    static constexpr result_type max() { return UINT64_MAX; }
+    result_type operator()() { return datasketches_verif_rand_u64(); }
+    void seed(uint64_t) {}
+  };
+  struct verif_bit_source { uint32_t operator()() const { return datasketches_verif_random_bit() & 1u; } };
+  struct verif_next_double { template<typename G> double operator()(G&) const { return datasketches_verif_next_double(); } };
+  struct verif_next_uint64 { template<typename G> uint64_t operator()(G& g) const { return g(); } };
+  static verif_rand_engine rand;
+  static verif_next_double next_double;
+  static verif_next_uint64 next_uint64;
+  static verif_bit_source random_bit;
+  inline void override_seed(uint64_t) {}
+}
+#else
 // common random declarations
 namespace random_utils {
   static std::random_device rd; // possibly unsafe in MinGW with GCC < 9.2
@@ -53,6 +80,7 @@ namespace random_utils {
     rand.seed(s);
   }
 }
+#endif // DATASKETCHES_VERIF
 
 // utility function to hide unused compiler warning
 // usually has no additional cost
